@@ -7,6 +7,7 @@ spellings of the C12 concretisers (gverif/props/c12_<style>.py), restricted to t
 """
 from __future__ import annotations
 
+import re
 from pathlib import Path
 
 from gverif.common import die
@@ -205,7 +206,17 @@ class GoogleBinding(Binding):
                 rec["text"] = join([dedent(i, 4) for i in sec["tl"]])
                 rec["admkind"] = hdr["admtype"].lower().replace(" ", "-")
             elif kind == "examples":
-                rec["subs"] = [(sub["kind"], join([dedent(i, 4) for i in sub["tl"]])) for sub in sec["subs"]]
+                # trim_doctest_flags (documented option): console blocks lose `# doctest:` comments and `<BLANKLINE>` markers iff it is on
+                trim = case["opts"].get("trim_doctest_flags", "T") != "F"
+
+                def console(i):
+                    t = dedent(i, 4)
+                    if trim:
+                        t = re.sub(r"^\s*<BLANKLINE>\s*$", "", re.sub(r"(\s*#\s*doctest:.+)$", "", t))
+                    return t
+
+                rec["subs"] = [(sub["kind"], "\n".join(console(i) for i in sub["tl"]) if sub["kind"] == "examples" else join([dedent(i, 4) for i in sub["tl"]]))
+                               for sub in sec["subs"]]
             else:
                 items = []
                 for el in sec["items"]:
